@@ -18,16 +18,18 @@ import (
 	"os"
 	"path/filepath"
 	"strconv"
+	"strings"
 )
 
 type rw struct {
-	timeRewritten bool
-	fset          *token.FileSet
-	info          *types.Info
-	file          string
-	n             int
-	sites         map[string]int
-	used          bool
+	sharedLoopVars bool // the package's go directive is < 1.22
+	timeRewritten  bool
+	fset           *token.FileSet
+	info           *types.Info
+	file           string
+	n              int
+	sites          map[string]int
+	used           bool
 }
 
 func main() {
@@ -57,12 +59,13 @@ func main() {
 	if _, err := conf.Check(bp.ImportPath, fset, files, info); err != nil {
 		die(fmt.Errorf("typecheck: %w", err))
 	}
+	shared := goDirectiveBefore122("go.mod")
 	keep := map[string]bool{"go.mod": true, "go.sum": true}
 	total := map[string]int{}
 	for i, f := range files {
 		name := bp.GoFiles[i]
 		keep[name] = true
-		r := &rw{fset: fset, info: info, file: name, sites: total}
+		r := &rw{fset: fset, info: info, file: name, sites: total, sharedLoopVars: shared}
 		r.fileDecls(f)
 		if r.used {
 			addImport(f, "simrt")
@@ -99,6 +102,24 @@ func main() {
 		}
 	}
 	fmt.Printf("instrumented_sites %v\n", total)
+}
+
+// goDirectiveBefore122 reports whether the module's go directive selects the
+// pre-1.22 loop-variable semantics (one variable per loop).
+func goDirectiveBefore122(gomod string) bool {
+	b, err := os.ReadFile(gomod)
+	if err != nil {
+		return false
+	}
+	for _, line := range strings.Split(string(b), "\n") {
+		f := strings.Fields(line)
+		if len(f) >= 2 && f[0] == "go" {
+			var maj, min int
+			fmt.Sscanf(f[1], "%d.%d", &maj, &min)
+			return maj == 1 && min < 22
+		}
+	}
+	return true
 }
 
 func die(err error) {
@@ -677,7 +698,6 @@ func (r *rw) rangeStmt(x *ast.RangeStmt) []ast.Stmt {
 	m := r.fresh()
 	k := r.fresh()
 	body := r.block(x.Body)
-	var prologue []ast.Stmt
 	keyName := "_"
 	if id, ok := x.Key.(*ast.Ident); ok && x.Key != nil {
 		keyName = id.Name
@@ -687,22 +707,48 @@ func (r *rw) rangeStmt(x *ast.RangeStmt) []ast.Stmt {
 		valName = x.Value.(*ast.Ident).Name
 	}
 	okv := r.fresh()
-	// v, ok := m[k]; if !ok { continue }
+	vv := r.fresh()
+	// vv, ok := m[k]; if !ok { continue }
+	var prologue []ast.Stmt
+	lhsV := ast.NewIdent("_")
+	if valName != "_" {
+		lhsV = ast.NewIdent(vv)
+	}
 	prologue = append(prologue,
-		&ast.AssignStmt{Lhs: []ast.Expr{ast.NewIdent(valName), ast.NewIdent(okv)}, Tok: token.DEFINE,
+		&ast.AssignStmt{Lhs: []ast.Expr{lhsV, ast.NewIdent(okv)}, Tok: token.DEFINE,
 			Rhs: []ast.Expr{&ast.IndexExpr{X: ast.NewIdent(m), Index: ast.NewIdent(k)}}},
 		&ast.IfStmt{Cond: &ast.UnaryExpr{Op: token.NOT, X: ast.NewIdent(okv)},
 			Body: &ast.BlockStmt{List: []ast.Stmt{&ast.BranchStmt{Tok: token.CONTINUE}}}})
-	if valName == "_" {
-		prologue[0] = &ast.AssignStmt{Lhs: []ast.Expr{ast.NewIdent("_"), ast.NewIdent(okv)}, Tok: token.DEFINE,
-			Rhs: []ast.Expr{&ast.IndexExpr{X: ast.NewIdent(m), Index: ast.NewIdent(k)}}}
-	}
-	if keyName != "_" {
-		prologue = append(prologue, define(keyName, ast.NewIdent(k)),
-			&ast.AssignStmt{Lhs: []ast.Expr{ast.NewIdent("_")}, Tok: token.ASSIGN, Rhs: []ast.Expr{ast.NewIdent(keyName)}})
+	pre := []ast.Stmt{define(m, x.X)}
+	if r.sharedLoopVars {
+		// Go < 1.22: ONE variable per loop, shared by all iterations (and by every
+		// closure that captures it). Declare the loop variables outside the loop
+		// and assign to them, so that capture semantics are the shipped ones.
+		if keyName != "_" || valName != "_" {
+			pre = append(pre, &ast.AssignStmt{Lhs: []ast.Expr{ast.NewIdent(keyName), ast.NewIdent(valName)}, Tok: token.DEFINE,
+				Rhs: []ast.Expr{call(sel("simrt", "MapZero"), ast.NewIdent(m))}})
+		}
+		if keyName != "_" {
+			prologue = append(prologue, &ast.AssignStmt{Lhs: []ast.Expr{ast.NewIdent(keyName)}, Tok: token.ASSIGN, Rhs: []ast.Expr{ast.NewIdent(k)}},
+				&ast.AssignStmt{Lhs: []ast.Expr{ast.NewIdent("_")}, Tok: token.ASSIGN, Rhs: []ast.Expr{ast.NewIdent(keyName)}})
+		}
+		if valName != "_" {
+			prologue = append(prologue, &ast.AssignStmt{Lhs: []ast.Expr{ast.NewIdent(valName)}, Tok: token.ASSIGN, Rhs: []ast.Expr{ast.NewIdent(vv)}},
+				&ast.AssignStmt{Lhs: []ast.Expr{ast.NewIdent("_")}, Tok: token.ASSIGN, Rhs: []ast.Expr{ast.NewIdent(valName)}})
+		}
+	} else {
+		// Go >= 1.22: a fresh variable per iteration
+		if keyName != "_" {
+			prologue = append(prologue, define(keyName, ast.NewIdent(k)),
+				&ast.AssignStmt{Lhs: []ast.Expr{ast.NewIdent("_")}, Tok: token.ASSIGN, Rhs: []ast.Expr{ast.NewIdent(keyName)}})
+		}
+		if valName != "_" {
+			prologue = append(prologue, define(valName, ast.NewIdent(vv)),
+				&ast.AssignStmt{Lhs: []ast.Expr{ast.NewIdent("_")}, Tok: token.ASSIGN, Rhs: []ast.Expr{ast.NewIdent(valName)}})
+		}
 	}
 	body.List = append(prologue, body.List...)
 	loop := &ast.RangeStmt{Key: ast.NewIdent("_"), Value: ast.NewIdent(k), Tok: token.DEFINE,
 		X: call(sel("simrt", "MapKeys"), r.site("maprange", x.Pos()), ast.NewIdent(m)), Body: body}
-	return []ast.Stmt{&ast.BlockStmt{List: []ast.Stmt{define(m, x.X), loop}}}
+	return []ast.Stmt{&ast.BlockStmt{List: append(pre, loop)}}
 }
